@@ -198,7 +198,15 @@ impl State {
     /// which may need to be generated first.
     pub fn eval_parameter_arg(&mut self, parameter: &Arg) -> DataDomain<BitvectorDomain> {
         match parameter {
-            Arg::Register { expr, data_type: _ } => self.eval(expr),
+            Arg::Register { expr, data_type: _ } => {
+                if !matches!(expr, Expression::Var(_)) {
+                    // The parameter is only a part of a register (e.g. `int` parameters on 64-bit architectures).
+                    // The evaluated value of such an expression does not contain the IDs of its inputs anymore,
+                    // so the read access to them has to be registered here.
+                    self.set_read_flag_for_input_ids_of_expression(expr);
+                }
+                self.eval(expr)
+            }
             Arg::Stack {
                 address,
                 size,
